@@ -136,8 +136,47 @@ func (c *c17Collector) count() int {
 	return len(c.versions)
 }
 
-// c17E2ECore runs the scenario; sighup = trigger reloads with a real SIGHUP to this process
-func c17E2ECore(kinds []int, perPhase int, sighup bool) (string, []Fail) {
+// c17Within runs fn and reports whether it returned within d (no wait of the harness is unbounded; a stuck
+// call is abandoned together with its goroutine)
+func c17Within(d time.Duration, fn func()) bool {
+	done := make(chan struct{})
+	go func() {
+		defer func() { recover() }()
+		fn()
+		close(done)
+	}()
+	select {
+	case <-done:
+		return true
+	case <-time.After(d):
+		return false
+	}
+}
+
+const c17E2ECallTimeout = 15 * time.Second
+
+func c17ListDir(root string) string {
+	var sb strings.Builder
+	entries, _ := os.ReadDir(root)
+	for _, e := range entries {
+		sub, _ := os.ReadDir(filepath.Join(root, e.Name()))
+		sb.WriteString(e.Name() + ": [")
+		for _, f := range sub {
+			sb.WriteString(f.Name() + " ")
+		}
+		sb.WriteString("] ")
+	}
+	return sb.String()
+}
+
+// c17E2ECore runs the scenario.  mode 0: reloads through the hook while traffic continues; mode 1: the same
+// with a real SIGHUP to this process; mode 2 (backlog): the first configuration names an upstream address where
+// nothing listens, the records are queued in the old pipelines, the client disconnects, the configuration is
+// corrected and reloaded, and NO further traffic arrives - the queued chunks must be taken over by the new
+// pipelines and reach the upstream.
+func c17E2ECore(kinds []int, perPhase int, mode int) (string, []Fail) {
+	sighup := mode == 1
+	backlog := mode == 2
 	logger.SetLogLevel(logger.FatalLevel)
 	tmp, err := os.MkdirTemp("", "c17e2e")
 	if err != nil {
@@ -150,10 +189,21 @@ func c17E2ECore(kinds []int, perPhase int, sighup bool) (string, []Fail) {
 
 	coll := &c17Collector{versions: map[int][]int{}}
 	srv, srvAddr := server.LaunchServer(logger.WithField("test", "c17"), server.Config{Address: "localhost:0", Secret: "Hi"}, coll)
-	defer srv.Shutdown()
+	defer c17Within(5*time.Second, srv.Shutdown)
 
+	upstream := srvAddr.String()
+	firstUpstream := upstream
+	if backlog {
+		// a local address where nothing listens
+		ln, lerr := net.Listen("tcp", "localhost:0")
+		if lerr != nil {
+			return "e2e-setup-error", nil
+		}
+		firstUpstream = ln.Addr().String()
+		ln.Close()
+	}
 	version := 0
-	os.WriteFile(confPath, []byte(c17E2EConfig(bufDir, srvAddr.String(), version, 0)), 0o644)
+	os.WriteFile(confPath, []byte(c17E2EConfig(bufDir, firstUpstream, version, 0)), 0o644)
 	ld, confErr := run.NewReloaderFromConfigFile(confPath, fmt.Sprintf("c17e2e%d_", time.Now().UnixNano()))
 	if confErr != nil {
 		return "e2e-setup-error", []Fail{{"c17:e2e-setup", confErr.Error()}}
@@ -161,13 +211,19 @@ func c17E2ECore(kinds []int, perPhase int, sighup bool) (string, []Fail) {
 	orc := ld.StartOrchestrator(logger.Root())
 	rorc := orc.(*run.ReloadableOrchestrator)
 	addrs, shutdownIn := ld.LaunchInputs(orc)
-	conn, err := net.Dial("tcp", addrs[0])
+	conn, err := net.DialTimeout("tcp", addrs[0], 5*time.Second)
 	if err != nil {
 		return "e2e-setup-error", []Fail{{"c17:e2e-setup", err.Error()}}
 	}
 	s0, f0 := run.VerifReloadCounts()
 
 	var fails []Fail
+	var failMu sync.Mutex
+	addFail := func(f Fail) {
+		failMu.Lock()
+		fails = append(fails, f)
+		failMu.Unlock()
+	}
 	sent := 0
 	var sendMu sync.Mutex
 	send := func(n int, pause time.Duration) {
@@ -177,8 +233,9 @@ func c17E2ECore(kinds []int, perPhase int, sighup bool) (string, []Fail) {
 			sn := sent
 			sendMu.Unlock()
 			line := fmt.Sprintf("<167>1 2020-07-20T03:48:20.154+03:00 host1 appServ/foo.com 51629 cron.log - Test msg, %d\n", sn)
+			conn.SetWriteDeadline(time.Now().Add(c17E2ECallTimeout))
 			if _, werr := conn.Write([]byte(line)); werr != nil {
-				fails = append(fails, Fail{"c17:e2e-send", werr.Error()})
+				addFail(Fail{"c17:e2e-send", "the agent does not take the client's data any more: " + werr.Error()})
 				return
 			}
 			if pause > 0 {
@@ -186,14 +243,14 @@ func c17E2ECore(kinds []int, perPhase int, sighup bool) (string, []Fail) {
 			}
 		}
 	}
+	stuck := false
 	reload := func() bool {
 		if !sighup {
-			rorc.VerifReload()
-			return true
+			return c17Within(c17E2ECallTimeout, rorc.VerifReload)
 		}
 		sb, fb := run.VerifReloadCounts()
 		syscall.Kill(os.Getpid(), syscall.SIGHUP)
-		for i := 0; i < 2000; i++ {
+		for i := 0; i < int(c17E2ECallTimeout/(5*time.Millisecond)); i++ {
 			sa, fa := run.VerifReloadCounts()
 			if sa+fa > sb+fb {
 				return true
@@ -205,54 +262,104 @@ func c17E2ECore(kinds []int, perPhase int, sighup bool) (string, []Fail) {
 
 	send(perPhase, 0)
 	nfail, nsucc := 0, 0
+	sawFailed := false
+	desc := fmt.Sprintf("mode %d, reload kinds %v", mode, kinds)
+	if backlog {
+		// the client disconnects; its records end up queued in the pipelines of the first configuration
+		conn.Close()
+		time.Sleep(800 * time.Millisecond)
+		if n := coll.count(); n != 0 {
+			addFail(Fail{"c17:e2e-setup", "records reached the upstream although the configured address is dead"})
+		}
+	}
 	for _, k := range kinds {
-		// traffic continues while the file is replaced and the reload runs
 		done := make(chan struct{})
-		go func() { send(perPhase, 200*time.Microsecond); close(done) }()
-		time.Sleep(time.Duration(perPhase/4) * 200 * time.Microsecond)
+		if !backlog {
+			// traffic continues while the file is replaced and the reload runs
+			go func() { send(perPhase, 200*time.Microsecond); close(done) }()
+			time.Sleep(time.Duration(perPhase/4) * 200 * time.Microsecond)
+		} else {
+			close(done)
+		}
 		v := version
 		if k == 0 {
 			v = version + 1
 		}
-		os.WriteFile(confPath, []byte(c17E2EConfig(bufDir, srvAddr.String(), v, k)), 0o644)
+		os.WriteFile(confPath, []byte(c17E2EConfig(bufDir, upstream, v, k)), 0o644)
 		if !reload() {
-			fails = append(fails, Fail{"c17:e2e-no-reload", "SIGHUP did not lead to a counted reload"})
+			stuck = true
+			sig := "c17:e2e-reload-stuck"
+			if sawFailed {
+				sig = "c17:stuck-after-failed-reload"
+			}
+			addFail(Fail{sig, fmt.Sprintf("reload (kind %d) did not complete within %s: %s", k, c17E2ECallTimeout, desc)})
+			break
 		}
 		if k == 0 {
 			version++
 			nsucc++
 		} else {
 			nfail++
+			sawFailed = true
 		}
-		<-done
+		select {
+		case <-done:
+		case <-time.After(c17E2ECallTimeout + 5*time.Second):
+			stuck = true
+		}
+		if stuck {
+			break
+		}
 	}
 	firstFinal := sent + 1
-	send(perPhase, 0)
-	conn.Close()
+	if !backlog && !stuck {
+		send(perPhase, 0)
+		conn.Close()
+	}
 
 	deadline := time.Now().Add(40 * time.Second)
+	if stuck {
+		deadline = time.Now().Add(3 * time.Second)
+	} else if backlog {
+		deadline = time.Now().Add(20 * time.Second) // upstream reachable, nothing else to wait for
+	}
 	for coll.count() < sent && time.Now().Before(deadline) {
 		time.Sleep(20 * time.Millisecond)
 	}
 	s1, f1 := run.VerifReloadCounts()
-	shutdownIn()
-	orc.Shutdown()
+	dirs := c17ListDir(bufDir)
+	if !c17Within(c17E2ECallTimeout, func() { shutdownIn(); orc.Shutdown() }) {
+		sig := "c17:e2e-shutdown-stuck"
+		if sawFailed {
+			sig = "c17:stuck-after-failed-reload"
+		}
+		addFail(Fail{sig, "inputs / orchestrator cannot be shut down (connection handlers blocked): " + desc})
+		stuck = true
+	}
 
 	coll.mu.Lock()
 	defer coll.mu.Unlock()
+	failMu.Lock()
+	defer failMu.Unlock()
 	var lost []string
 	for sn := 1; sn <= sent; sn++ {
 		if len(coll.versions[sn]) == 0 {
 			lost = append(lost, strconv.Itoa(sn))
 		}
 	}
-	desc := fmt.Sprintf("reload kinds %v, %d records", kinds, sent)
+	desc += fmt.Sprintf(", %d records", sent)
 	if len(lost) > 0 {
 		n := len(lost)
 		if n > 10 {
 			lost = lost[:10]
 		}
-		fails = append(fails, Fail{"c17:e2e-lost", fmt.Sprintf("%d records never arrived (e.g. %s): %s", n, strings.Join(lost, ","), desc)})
+		if backlog {
+			fails = append(fails, Fail{"c17:e2e-queued-chunks-not-taken-over",
+				fmt.Sprintf("%d records queued in the old pipelines (upstream unreachable) did not reach the upstream after the reload with the corrected configuration, no new pipeline took the saved chunks over (e.g. %s); buffer dirs: %s; %s",
+					n, strings.Join(lost, ","), dirs, desc)})
+		} else {
+			fails = append(fails, Fail{"c17:e2e-lost", fmt.Sprintf("%d records never arrived (e.g. %s): %s", n, strings.Join(lost, ","), desc)})
+		}
 	}
 	if len(coll.bad) > 0 {
 		fails = append(fails, Fail{"c17:e2e-garbled", coll.bad[0] + ": " + desc})
@@ -282,11 +389,16 @@ func c17E2ECore(kinds []int, perPhase int, sighup bool) (string, []Fail) {
 		}
 	}
 	df, ds := int(f1-f0), int(s1-s0)
-	if df != nfail || ds != nsucc {
+	if !stuck && (df != nfail || ds != nsucc) {
 		fails = append(fails, Fail{"c17:e2e-reload-accounting", fmt.Sprintf("failures +%d (expected %d), successes +%d (expected %d): %s", df, nfail, ds, nsucc, desc)})
 	}
+	if backlog {
+		finalV = ds // no record is sent after the reload: the configuration in force is the number of successful reloads
+	}
 	cls := "e2e"
-	if len(lost) > 0 {
+	if stuck {
+		cls = "e2e-stuck"
+	} else if len(lost) > 0 {
 		cls = "e2e-lost"
 	}
 	return fmt.Sprintf("%s:F=%d;S=%d;C=%d", cls, df, ds, finalV), fails
@@ -305,8 +417,8 @@ func c17RunE2E(c *Case) (string, []Fail) {
 	if per < 1 || per > 100000 {
 		return "badcase", nil
 	}
-	if mode == 0 {
-		return c17E2ECore(kinds, per, false)
+	if mode == 0 || mode == 2 {
+		return c17E2ECore(kinds, per, mode)
 	}
 	// real SIGHUP: in a child process (every ReloadableOrchestrator of a process reacts to the signal)
 	args := []string{"C17", "child", "e2e", strconv.Itoa(per)}
@@ -321,6 +433,8 @@ func c17RunE2E(c *Case) (string, []Fail) {
 	}
 	var out string
 	var fails []Fail
+	killer := time.AfterFunc(150*time.Second, func() { cmd.Process.Kill() })
+	defer killer.Stop()
 	sc := bufio.NewScanner(outPipe)
 	sc.Buffer(make([]byte, 1<<20), 1<<20)
 	for sc.Scan() {
@@ -351,7 +465,7 @@ func c17Child(args []string) {
 		k, _ := strconv.Atoi(a)
 		kinds = append(kinds, k)
 	}
-	out, fails := c17E2ECore(kinds, per, true)
+	out, fails := c17E2ECore(kinds, per, 1)
 	fmt.Printf("RESULT %s\n", out)
 	for _, f := range fails {
 		fmt.Printf("FAIL %s\t%s\n", f.Sig, strings.ReplaceAll(f.Desc, "\n", " "))
